@@ -5,6 +5,7 @@ import (
 	"encoding/json"
 	"fmt"
 	"hash/fnv"
+	mrand "math/rand"
 	"os"
 	"regexp"
 	"runtime"
@@ -168,6 +169,8 @@ func dumpHang(path, why string) {
 // ExecRun executes one run of h on the given tape and returns its Run record.
 func ExecRun(t *testing.T, h Harness, tape *Tape) (r *Run) {
 	r = newRun(h.Prop, tape)
+	// Code under test that uses the global math/rand source (back-off jitter) is pinned to the run's seed.
+	mrand.Seed(int64(tape.Seed)) //nolint:staticcheck
 	wd.cur = tape
 	wd.curRun = r
 	wd.curProp = h.Prop
